@@ -152,7 +152,11 @@ func ReadEnvFile(filename string) (map[string]string, error) {
 	envs := make(map[string]string)
 	envscanner := bufio.NewScanner(f)
 	for envscanner.Scan() {
-		kv := strings.Split(envscanner.Text(), "=")
+		// lines without a `=` (blank lines for instance) define nothing
+		kv := strings.SplitN(envscanner.Text(), "=", 2)
+		if len(kv) != 2 {
+			continue
+		}
 		envs[kv[0]] = kv[1]
 	}
 
